@@ -14,7 +14,7 @@ Expected(c) ==
     CASE c.k = "binop" ->
             LET r == BinOp(c.op, c.s1, c.s2, c.num, c.fill) IN
             [id |-> c.id, w |-> r.w, v |-> r.v, ties |-> BinOpTies(c.s1, c.s2, c.num),
-             gridok |-> GridOK(c.s1, ToWave(c.s2, c.s1.e), c.num, Dstep(c)), e |-> r.e]
+             gridok |-> GridOK(c.s1, ToWave(c.s2, c.s1.e), c.num, Dstep(c)), e |-> r.e, vu |-> r.vu]
       [] c.k = "to" -> LET t == ToWave(c.s, c.e2) IN [id |-> c.id, w |-> t.w, v |-> t.v, thm |-> ThmToWave(c.s, c.e2)]
       [] c.k = "units" -> [id |-> c.id,
                            wave |-> [A \in WaveUnits |-> [B \in WaveUnits |-> WaveFac(A, B)]],
